@@ -256,6 +256,10 @@ type Exec struct {
 	notes        []string
 	symLits      []value // symbolic literal table (IntLit/StringLit interception)
 	symMapOrder  bool
+	mapOrderMin  int // maps with fewer live entries keep insertion order (0 = 2)
+	mapOrderFull int // all permutations up to this many entries (0 = 3)
+	mapOrderSticky bool // one order per map object and size on a path
+	mapOrders    map[*omap][]int
 	engineFlags  map[string]int64
 	funcs        map[string]int64 // garble functions entered -> count
 	wantWitness  bool
